@@ -442,4 +442,97 @@ Proof.
       rewrite G2. cbn [w_nodes]. exact (Hpre rf p Hr).
 Qed.
 
+(* ---------- the public calls ---------- *)
+Lemma calc_range_not_ref n name v w r w' :
+  TablesOK T check_fn -> calc_element_insert_range T n name v w = Val (OK r, w') -> isref T (n_type n) = false.
+Proof.
+  intros TK H. unfold calc_element_insert_range in H. wk H. apply wl_inv in E as (mode & Hm & Q & _). injection Q as ->.
+  destruct (mode =? MCharacters) eqn:Em; [discriminate H|].
+  unfold isref. destruct (is_ref T (n_type n)) as [[|]| |] eqn:Er; try reflexivity.
+  rewrite (tk_ref _ _ TK _ Er) in Hm. injection Hm as <-. discriminate Em.
+Qed.
+
+Lemma model_of_mreach w i m : TreeFacts w -> model_of i w = Val (OK m, w) -> MReach T w m i.
+Proof.
+  intros HT H. apply (model_of_val T) in H as (_ & [(m0 & s0 & [= <-] & Hu)|([=] & _)]).
+  eapply specpath_mreach. eapply upath_specpath; eauto.
+Qed.
+
+(* a successful same-model move_element_here: nothing happens (the element is already a child of h) or
+   move_element_local runs; the destination is not a reference element *)
+Lemma e_move_here_local h mv m w w' r :
+  TablesOK T check_fn ->
+  e_move_element_here T tab_en check_fn LATEST h mv w = Val (OK r, w') ->
+  model_of h w = Val (OK m, w) -> model_of mv w = Val (OK m, w) ->
+  w' = w \/ exists pos version,
+    move_element_local T check_fn h mv pos m version w = Val (OK r, w') /\
+    (forall n, w_nodes w h = Some n -> isref T (n_type n) = false).
+Proof.
+  intros TK H Hmh Hmm. unfold e_move_element_here in H.
+  destruct (h =? mv); [discriminate H|].
+  wk H. wk H. assert (a = m) by congruence. assert (a0 = m) by congruence. subst a a0.
+  wk H. wk H. destruct (negb (a0 =? a)); [discriminate H|].
+  wk H. apply get_node_inv in E3 as (n & Hn & Q & _). injection Q as ->.
+  wk H. apply get_node_inv in E3 as (mn & Hmn & Q & _). injection Q as ->.
+  wk H. destruct a1 as (rs, re). rewrite N.eqb_refl in H.
+  wk H. destruct a1 as [p|]; [|discriminate H].
+  destruct (p =? h); [apply wret_inv in H as (_ & ->); left; reflexivity|].
+  right. exists re, a0. split; [exact H|]. intros n0 Hn0. assert (n0 = n) by congruence. subst n0.
+  eapply calc_range_not_ref; eauto.
+Qed.
+
+Theorem C06_move_local_ident h mv w w' r m :
+  TablesOK T check_fn -> Inv06 T check_fn w ->
+  e_move_element_here T tab_en check_fn LATEST h mv w = Val (OK r, w') ->
+  model_of h w = Val (OK m, w) -> model_of mv w = Val (OK m, w) ->
+  identifiable T w mv = true ->
+  (* (1) every reference of the model that designated the moved element or an element below it still designates the
+         same element object (also when make_unique_item_name gave the moved element a new name) *)
+  (forall rf x, live_ref T w m rf -> designates T w m rf x -> below T w mv x -> designates T w' m rf x) /\
+  (* (2) a reference that resolves to an element outside the moved subtree keeps its text *)
+  (forall rf p, ref_text T w rf = Some p -> resolves T w m rf ->
+                ~ (exists x, designates T w m rf x /\ below T w mv x) -> ref_text T w' rf = Some p) /\
+  (* (3) a reference keeps its text unless it is a reference of this model whose text is the old path of the moved
+         element or lies below it at a '/' boundary *)
+  (forall rf p src, SpecPath T w m mv src -> ref_text T w rf = Some p ->
+                    ~ (live_ref T w m rf /\ old_form src p) -> ref_text T w' rf = Some p).
+Proof.
+  intros TK HI H Hmh Hmm Hid.
+  destruct (e_move_here_local _ _ _ _ _ _ TK H Hmh Hmm) as [->|(pos & version & Hml & Hnr)].
+  { split; [|split]; auto. }
+  pose proof HI as (HT & H4 & H5).
+  assert (HRmv : MReach T w m mv) by (apply model_of_mreach; assumption).
+  destruct (move_local_ident h mv pos m version w w' r HI Hml HRmv Hid Hnr)
+    as (src & dest & xm & x' & Hsp & Hxm & Hx' & Hidn & Ht1 & Ht2).
+  pose proof (slashfree_names T w (i4_slash _ _ _ H4)) as HNS.
+  assert (Hkmv : assoc_get src (m_idents xm) = Some mv).
+  { apply (i4_exact _ _ _ H4 m xm Hxm). split; [exact HRmv|]. split; assumption. }
+  assert (Hsne : src <> []).
+  { unfold identifiable in Hid. destruct (w_nodes w mv) as [nmv|] eqn:Hnmv; [|discriminate Hid].
+    destruct (item_name_n T w nmv) as [nm0|] eqn:Enm.
+    - eapply specpath_nonempty; eauto.
+    - exfalso. eapply (i4_named _ _ _ H4 mv nmv); eauto. }
+  split; [|split].
+  - intros rf x Hlive (xm0 & p & Hxm0 & Hr & Hp) Hb. assert (xm0 = xm) by congruence. subst xm0.
+    destruct (Ht1 rf p x Hr Hlive Hp Hb) as (suf & -> & Hr').
+    pose proof (proj1 (i4_exact _ _ _ H4 m xm Hxm _ x) Hp) as (_ & _ & Hspx).
+    destruct (below_old_form T w m mv x src _ HT Hsp Hb Hspx) as (suf2 & Heq & Hbd).
+    apply app_inv_head in Heq. subst suf2.
+    exists x', (dest ++ suf). split; [exact Hx'|]. split; [exact Hr'|].
+    apply Hidn. left. exists (src ++ suf). split; [apply rekey_some; exists suf; auto|exact Hp].
+  - intros rf p Hr (x & (xm0 & p0 & Hxm0 & Hr0 & Hp)) Hnot.
+    assert (xm0 = xm) by congruence. subst xm0. assert (p0 = p) by congruence. subst p0.
+    apply (Ht2 rf p Hr). right.
+    destruct (rekey src dest p) as [p'|] eqn:Erk; [|reflexivity]. exfalso. apply Hnot. exists x. split.
+    + exists xm, p. auto.
+    + eapply (old_form_below T w m xm mv src p x); eauto.
+      * exact (i4_exact _ _ _ H4 m).
+      * apply (old_form_rekey src dest). eauto.
+  - intros rf p src0 Hsp0 Hr Hnot.
+    destruct (specpath_fun T w m m mv _ _ HT Hsp Hsp0) as (_ & <-).
+    apply (Ht2 rf p Hr).
+    destruct (rekey src dest p) as [p'|] eqn:Erk; [|right; reflexivity].
+    left. intros Hl. apply Hnot. split; [exact Hl|]. apply (old_form_rekey src dest). eauto.
+Qed.
+
 End Move.
